@@ -53,7 +53,7 @@ func lineEditShape(old, new string, cmd CmdSpec) string {
 				if i < n && j < m {
 					if ol[i] == nl[j] {
 						best = min(best, cost[i+1][j+1][0])
-					} else if sameModuloEnding(ol[i], nl[j]) {
+					} else if sameModuloEnding(ol[i], nl[j]) && j+1 < m { // … only when lines are added after it
 						best = min(best, GAIN+cost[i+1][j+1][0])
 					} else if isRewrite(ol[i], nl[j], cmd) {
 						best = min(best, REWRITE+cost[i+1][j+1][0])
